@@ -86,7 +86,7 @@ def _placement(msgs, results, received, via):
     return bad
 
 
-def run_one(devs, budgets, sizes=None, mode="server", via="conn", fin=False, reconnect=False):
+def run_one(devs, budgets, sizes=None, mode="server", via="conn", fin=False, reconnect=False, late_read=False):
     box = {}
 
     def driver(s):
@@ -169,14 +169,24 @@ def run_one(devs, budgets, sizes=None, mode="server", via="conn", fin=False, rec
         k.send_menu = False
         k.select_menu = False
         box["results"] = results
-        box["received"] = bytes(peer.rx[base:])
         box["msgs"] = msgs
-        peer.close()
-        disable()
+        if late_read:
+            # a slow peer with a small receive buffer: most of the data is still in this side's send buffer when it closes the connection,
+            # and the peer reads only afterwards (everything reported as sent must still arrive: a graceful close delivers it)
+            k.rcvbuf = 2
+            disable()
+            s.settle()
+            box["received"] = bytes(peer.rx[base:])
+            box["peer_reset"] = peer.was_reset
+            peer.close()
+        else:
+            box["received"] = bytes(peer.rx[base:])
+            peer.close()
+            disable()
 
     sched = vrt.run(driver, devs, budgets, max_steps=300000, max_time=600.0, line_points=False)
     res = {"trace": sched.trace, "v": []}
-    case = {"sizes": sizes, "mode": mode, "via": via, "fin": fin, "reconnect": reconnect}
+    case = {"sizes": sizes, "mode": mode, "via": via, "fin": fin, "reconnect": reconnect, "late_read": late_read}
     if sched.harness_failure or sched.driver_exception or box.get("harness"):
         res["harness"] = (sched.harness_failure or sched.driver_exception or box.get("harness"))[-1000:]
         res["obs"] = None
@@ -254,6 +264,13 @@ def run(ctx):
                       "levels_completed": st["levels_completed"]})
         tot_exec += st["executions"]
         nontrivial += st["executions"] - 1
+    # a slow peer that reads only after this side closed the connection (graceful close keeps what was accepted; an abortive one would not)
+    for cfg in ({"sizes": [17, 3], "mode": "server", "via": "conn", "late_read": True}, {"sizes": [17], "mode": "client", "via": "conn", "late_read": True},
+                {"sizes": [5], "mode": "server", "via": "proto", "late_read": True}):
+        st = explore.explore(ctx, run_one, {"env": 1, "sched": 0}, f"c10-late-read-{cfg['via']}-{cfg['mode']}", opts=cfg, chunk=8)
+        parts.append({"cfg": cfg, "executions": st["executions"], "outcomes": st["distinct_outcomes"], "levels_completed": st["levels_completed"]})
+        tot_exec += st["executions"]
+        nontrivial += st["executions"] - 1
     # a failed (or successful) send, then the peer reconnects and the next send goes over the new connection of the same object
     for cfg in ({"sizes": [17, 5], "mode": "server", "via": "conn", "reconnect": True}, {"sizes": [3, 4], "mode": "server", "via": "proto", "reconnect": True}):
         st = explore.explore(ctx, run_one, {"env": f, "sched": 0}, f"c10-reconnect-{cfg['via']}-{cfg['sizes']}", opts=cfg, chunk=8)
@@ -274,7 +291,7 @@ def replay(ctx, detail):
     case = detail["case"]
     devs = {int(k): v for k, v in case.get("devs", {}).items()}
     r = run_one(devs, case.get("budgets", {}), sizes=case["sizes"], mode=case["mode"], via=case["via"], fin=case.get("fin", False),
-                reconnect=case.get("reconnect", False))
+                reconnect=case.get("reconnect", False), late_read=case.get("late_read", False))
     print("replayed:", r.get("obs"))
     ctx.evaluations += 1
     for sig, d in r["v"]:
